@@ -63,14 +63,14 @@ def random_cases(ctx, count):
                                               "ep": p, "eq": q, "seeds": [r.choice([-1, r.randint(0, 999)])],
                                               "X": [[r.randint(-3, 3) for _ in range(nf)]]}})
         else:
-            n = r.randint(2, 14)
+            n = r.randint(2, 20)
             dim = r.choice([1, 2, 2, 3])
             # squared distances stay <= 3 eps: kernel entries >= exp(-3)
             side = r.randint(1, 4)
             pts = [[r.randint(0, side) for _ in range(dim)] for _ in range(n)]
             maxd2 = max(sum((a - b) ** 2 for a, b in zip(p1, p2)) for p1 in pts for p2 in pts)
             en, ed = r.choice([(max(4, maxd2 // 3 + 1), 1), (max(8, maxd2), 1), (2 * max(2, maxd2 // 3 + 1) + 1, 2)])
-            es = r.choice([1, 1, 2, 2, 3, r.randint(1, n), n + 1])
+            es = r.choice([1, 1, 2, 2, 3, 4, r.randint(1, n), n + 1])
             steps = [1, r.randint(2, 4)]
             out.append({"kind": "dm", "inp": {"direct": False, "pts": pts, "en": en, "ed": ed, "es": es, "steps": steps,
                                               "kn": [], "kd": 1}})
@@ -109,7 +109,7 @@ def run(ctx):
         "dm: every sorted multiset of 2..MaxPts points on 0..MaxCoord x eps {4, 9/2} x embedding_size 1..n+1",
         "dm: every symmetric 3x3 matrix with unit diagonal and off-diagonal entries in {1,2,4}/16 x embedding_size {1,2}"]
     if not ctx.quick:
-        cases += random_cases(ctx, 3000)
+        cases += random_cases(ctx, 6000)
     vlib.number(cases)
     ctx.cases = len(cases)
     ctx.nontrivial = len({repr(sorted(c["inp"].items(), key=str)) + c["kind"] for c in cases if nontrivial(c)})
@@ -119,9 +119,9 @@ def run(ctx):
                 + pick("rp", lambda i: i["meth"] == "sparse" and i["nf"] == 4 and i["td"] == 3)
                 + pick("jl", lambda i: 0 < i["ep"] < i["eq"]))
     vlib.validate_with_findings(ctx, "Trace_Embedding", traces, constants=TRACE_CONST, chunk=1500)
-    ctx.rule = ("cases = TLC-enumerated domain of Gen_Embedding (see exhaustive_subdomains) [+ 3000 seeded random cases in the "
+    ctx.rule = ("cases = TLC-enumerated domain of Gen_Embedding (see exhaustive_subdomains) [+ 6000 seeded random cases in the "
                 "thorough tier: n_features <= 14, rows <= 8, cells in -9..9; n_samples <= 40 for the JL dimension; "
-                "diffusion maps of 2..14 lattice points in 1..3 dimensions]; non-trivial = projection with 0 < dim <= "
+                "diffusion maps of 2..20 lattice points in 1..3 dimensions, embedding sizes 1..4 (both solver branches)]; non-trivial = projection with 0 < dim <= "
                 "n_features and n_features > 1 / valid eps / diffusion map with 0 < embedding_size < n on >= 2 distinct points; "
                 "distinct by (kind, input)")
     ctx.trusted = ["TLC + CommunityModules Json", "Elem tables (self-checked by MC_Elem)",
